@@ -184,7 +184,7 @@ Section Live.
         rewrite W in E. cbn [rank] in E. destruct o0; cbn [rank] in E; lia.
       + rewrite (sumto_outside rank (phases st) x _ N Bx). lia.
     - destruct (phases st x) as [| | |i0 v0|] eqn:P; try discriminate H. injection H as <-. cbn [phases execs].
-      pose proof (sumto_upd rank N (phases st) x (Done (Ok i0 v0)) B) as E. rewrite P in E. cbn [rank] in E. lia.
+      pose proof (sumto_upd rank N (phases st) x (Done (if r_badaccept (reqs x) then Err EEncoding else Ok i0 v0)) B) as E. rewrite P in E. cbn [rank] in E. lia.
   Qed.
 
   (* so a schedule of real (bounded, enabled) steps is at most 8 N long: no livelock *)
